@@ -33,6 +33,21 @@ pub struct C15Model {
     epoch: u32,
     response_epoch: Vec<u32>,
     reinits_left: u32,
+    /// second configuration: a child of the TA that the harness plays itself
+    hchild: Option<std::sync::Arc<HChild>>,
+    /// reference life cycle of that child's two keys: 0 nothing outstanding,
+    /// 1 request open at the proxy, 2 response waiting to be collected
+    hstate: [u8; 2],
+    /// keys whose request went into the signer request that is open
+    in_flight: Vec<u8>,
+    hclass: Option<String>,
+    /// what the child was answered last: "issue", "error <code>", ...
+    last_child_reply: String,
+}
+
+pub struct HChild {
+    signer: crate::cms::PoolSigner,
+    keys: [usize; 2],
 }
 
 fn proxy_json(w: &World) -> Value {
@@ -151,6 +166,21 @@ impl C15Model {
 
 impl Model for C15Model {
     fn alphabet(&mut self, _w: &World, depth: usize, _path: &[Op]) -> Vec<Op> {
+        if self.hchild.is_some() {
+            if depth == 0 {
+                self.last_numbers = None;
+            }
+            // the harness-played child: genuine messages only, no krill
+            // children (the first configuration has those)
+            let mut v = vec![Op::TaChildIssue { key: 0 }, Op::TaChildIssue { key: 1 }, Op::TaMake];
+            for slot in 0..self.requests.len().min(2) {
+                v.push(Op::TaSign { slot, tamper: 0 });
+            }
+            for slot in 0..self.responses.len().min(2) {
+                v.push(Op::TaDeliver { slot, tamper: 0 });
+            }
+            return v;
+        }
         let mut v = vec![
             Op::SyncParent { ca: "c1".into(), parent: "ta".into() },
             Op::SyncParent { ca: "c2".into(), parent: "ta".into() },
@@ -228,6 +258,44 @@ impl Model for C15Model {
                     OpOutcome::from_res(r)
                 }
             },
+            Op::TaChildIssue { key } => {
+                use rpki::ca::provisioning::{self, IssuanceRequest, RequestResourceLimit, ResourceClassName};
+                let h = self.hchild.clone().expect("harness child");
+                let me: rpki::ca::idexchange::ChildHandle = ca("h1").convert();
+                let ta: rpki::ca::idexchange::ParentHandle = ca("ta").convert();
+                if self.hclass.is_none() {
+                    let list = provisioning::Message::list(me.clone().convert(), ta.clone().convert());
+                    if let Ok(reply) = w.krill.ca_manager().verif_local_rfc6492(&ca("ta"), list, &w.actor, &w.krill) {
+                        if let provisioning::Payload::ListResponse(l) = reply.into_payload() {
+                            self.hclass = l.classes().first().map(|c| c.class_name().to_string());
+                        }
+                    }
+                }
+                let class = ResourceClassName::from(self.hclass.clone().unwrap_or_else(|| "default".into()));
+                let csr = h.signer.csr(h.keys[*key as usize], "rsync://localhost/repo/h1/0/");
+                let msg = provisioning::Message::issue(me.convert(), ta.convert(), IssuanceRequest::new(class, RequestResourceLimit::new(), csr));
+                match w.krill.ca_manager().verif_local_rfc6492(&ca("ta"), msg, &w.actor, &w.krill) {
+                    Ok(reply) => {
+                        self.last_child_reply = match reply.into_payload() {
+                            provisioning::Payload::IssueResponse(i) => {
+                                let issued = i.into_issued();
+                                if issued.cert().subject_key_identifier() == h.signer.public_key(h.keys[*key as usize]).key_identifier() {
+                                    "issue".to_string()
+                                } else {
+                                    "issue-for-another-key".to_string()
+                                }
+                            }
+                            provisioning::Payload::ErrorResponse(e) => format!("error {}", e.status()),
+                            _ => "other".to_string(),
+                        };
+                        OpOutcome { ok: true, err: None, tasks: vec![], fatal: None }
+                    }
+                    Err(e) => {
+                        self.last_child_reply = format!("failed: {e}");
+                        OpOutcome { ok: false, err: Some(e.to_string()), tasks: vec![], fatal: None }
+                    }
+                }
+            }
             // everything else: the real operation, without running the
             // scheduler (which would perform the whole exchange by itself)
             other => w.apply(other),
@@ -261,6 +329,7 @@ impl Model for C15Model {
                 }
                 if out.ok {
                     self.open = self.requests.last().map(nonce_of_req);
+                    self.in_flight = (0..2u8).filter(|k| self.hstate[*k as usize] == 1).collect();
                 } else if strip(proxy_now.clone()) != strip(before["proxy_before"].clone()) {
                     v.push(("refused-but-changed".into(), "a refused make-request changed the proxy".into()));
                 }
@@ -292,11 +361,56 @@ impl Model for C15Model {
                 }
                 if out.ok {
                     self.open = None;
+                    for k in std::mem::take(&mut self.in_flight) {
+                        self.hstate[k as usize] = 2;
+                    }
                 } else if strip(proxy_now.clone()) != strip(before["proxy_before"].clone()) {
                     v.push(("refused-but-changed".into(), "a refused response changed the proxy".into()));
                 }
             }
+            Op::TaChildIssue { key } => {
+                // each forwarded request gets exactly one response, and the
+                // child gets it exactly once
+                let k = *key as usize;
+                let reply = self.last_child_reply.clone();
+                match self.hstate[k] {
+                    2 => {
+                        if reply != "issue" {
+                            v.push(("response-not-delivered".into(), format!("the signer answered the request for key {key} and the proxy accepted the response, but the child asking again is told '{reply}'")));
+                        }
+                        self.hstate[k] = 0;
+                    }
+                    st => {
+                        if reply.starts_with("issue") {
+                            v.push(("response-out-of-nowhere".into(), format!("the child is handed a certificate for key {key} although the reference has {} for it", if st == 1 { "an unanswered request" } else { "nothing outstanding (already collected)" })));
+                        } else if !(reply == "error 1104" || reply == "error 1101") {
+                            v.push(("child-request".into(), format!("request for key {key} answered with '{reply}'")));
+                        }
+                        self.hstate[k] = 1;
+                    }
+                }
+            }
             _ => {}
+        }
+        // a response that waits for its child stays until that child asks
+        if let (Some(was), Some(is)) = (before["proxy_before"]["child_details"].as_object(), proxy_now["child_details"].as_object()) {
+            for (name, c) in was {
+                let own_turn = match op {
+                    Op::SyncParent { ca: c_name, .. } => c_name == name,
+                    Op::TaChildIssue { .. } => name == "h1",
+                    _ => false,
+                };
+                if own_turn {
+                    continue;
+                }
+                if let Some(had) = c["open_responses"].as_object() {
+                    for k in had.keys() {
+                        if is.get(name).and_then(|n| n["open_responses"].get(k)).is_none() {
+                            v.push(("response-vanished".into(), format!("the response waiting for child {name} (key {k}) disappeared from the proxy during {}", op.compact())));
+                        }
+                    }
+                }
+            }
         }
         // the reference's view of the open request agrees with the proxy
         let proxy_open = proxy_now["open_signer_request"].as_str().map(|s| s.to_string());
@@ -362,7 +476,7 @@ impl Model for C15Model {
                 let e: Vec<String> = r
                     .rejections
                     .iter()
-                    .filter(|(u, why)| !((why.contains("no manifest") || why.contains("manifest")) && (why.contains("/c1/") || why.contains("/c2/") || u.contains("/c1/") || u.contains("/c2/"))))
+                    .filter(|(u, why)| !((why.contains("no manifest") || why.contains("manifest")) && (why.contains("/c1/") || why.contains("/c2/") || why.contains("/h1/") || u.contains("/c1/") || u.contains("/c2/") || u.contains("/h1/"))))
                     .map(|(u, why)| format!("{u}: {why}"))
                     .collect();
                 if !e.is_empty() {
@@ -387,6 +501,8 @@ impl Model for C15Model {
             "open": self.open.is_some(),
             "resp_current": self.response_epoch.iter().map(|e| *e == self.epoch).collect::<Vec<_>>(),
             "reinits_left": self.reinits_left,
+            "hstate": self.hstate,
+            "in_flight": self.in_flight,
         });
         let text = format!("{c}{pool}");
         crate::fingerprint::h128(text.as_bytes())
@@ -411,6 +527,30 @@ fn build() -> Result<World, String> {
     Ok(w)
 }
 
+/// The TA with one child that the harness plays itself (plus nothing else).
+fn build_hchild() -> Result<World, String> {
+    *crate::world::TA_KEY_PEM.lock().unwrap() = Some(ta_pem());
+    let w = World::new(WorldCfg::default()).map_err(|e| e.to_string());
+    *crate::world::TA_KEY_PEM.lock().unwrap() = None;
+    let w = w?;
+    let signer = crate::cms::PoolSigner::new();
+    let id = signer.new_key();
+    let req = krill::api::admin::AddChildRequest {
+        handle: ca("h1").convert(),
+        resources: res("AS65000-AS65010", "10.0.0.0/8", ""),
+        id_cert: signer.id_cert(id),
+    };
+    w.krill.ca_manager().ca_add_child(&ca("ta"), req, &w.actor, &w.krill).map_err(|e| format!("add child h1: {e}"))?;
+    Ok(w)
+}
+
+fn hchild() -> std::sync::Arc<HChild> {
+    // the child's two CA keys; fixed pool keys, so that every process of the
+    // exploration has the same ones
+    let signer = crate::cms::PoolSigner::new_fixed(&[125, 126]);
+    std::sync::Arc::new(HChild { signer, keys: [0, 1] })
+}
+
 pub fn run(tier: &Tier, args: &[String]) -> i32 {
     let depth = crate::report::arg_value(args, "--depth").and_then(|d| d.parse().ok()).unwrap_or(if tier.thorough { 10 } else { 7 });
     let cap = crate::report::arg_value(args, "--cap").and_then(|d| d.parse().ok()).unwrap_or(if tier.thorough { 1800 } else { 50 });
@@ -421,20 +561,42 @@ pub fn run(tier: &Tier, args: &[String]) -> i32 {
         "signer re-initialisation (hook H7: the signer aggregate is dropped and initialised again with the same TA key, hence a new identity key, and the proxy is updated) happens at most once per path; manifest numbers are not compared across it".into(),
         "nonces are random (uuid); they are compared only for equality".into(),
     ];
-    e1run::run(
-        Spec {
-            property: "C15".into(),
-            configs: vec![Config {
-                name: "ta-two-children".into(),
-                build: Box::new(build),
-                model: C15Model { thorough: tier.thorough, ta_pem: ta_pem(), reinits_left: 1, ..Default::default() },
-            }],
-            depth,
-            wall_cap_s: cap,
-            procs: 16,
-            min_states: 20,
-        },
-        &mut out,
-    );
+    let only = crate::report::arg_value(args, "--config");
+    if only.as_deref().map(|c| c == "ta-two-children").unwrap_or(true) {
+        e1run::run(
+            Spec {
+                property: "C15".into(),
+                configs: vec![Config {
+                    name: "ta-two-children".into(),
+                    build: Box::new(build),
+                    model: C15Model { thorough: tier.thorough, ta_pem: ta_pem(), reinits_left: 1, ..Default::default() },
+                }],
+                depth,
+                wall_cap_s: if tier.thorough { cap } else { cap * 7 / 10 },
+                procs: 16,
+                min_states: 20,
+            },
+            &mut out,
+        );
+    }
+    if only.as_deref().map(|c| c == "ta-harness-child").unwrap_or(true) {
+        // few operations, small states: deeper (two complete exchanges plus
+        // the child's requests need eight steps)
+        e1run::run(
+            Spec {
+                property: "C15".into(),
+                configs: vec![Config {
+                    name: "ta-harness-child".into(),
+                    build: Box::new(build_hchild),
+                    model: C15Model { thorough: tier.thorough, ta_pem: ta_pem(), reinits_left: 0, hchild: Some(hchild()), ..Default::default() },
+                }],
+                depth: depth + if tier.thorough { 2 } else { 1 },
+                wall_cap_s: if tier.thorough { cap } else { cap * 3 / 10 },
+                procs: 16,
+                min_states: 20,
+            },
+            &mut out,
+        );
+    }
     out.finish()
 }
